@@ -48,7 +48,6 @@ def val(e):
 
 class Sym:
     __slots__ = ('a', 'n', 'd')
-    __array_priority__ = 1000
 
     def __init__(self, a, n=None, d=None):
         self.a = a
